@@ -66,10 +66,26 @@ def _is_state_attr(ci, attr):
 def _bound_to_element_of(fn, stmt, name, param):
     """Is `name`, at statement `stmt`, the loop variable of an enclosing `for ... in zip(..., param, ...)` (same position) or
     `for name in param`?"""
+    def zip_position(tg, it, nm):
+        """nm is bound, by `for tg in zip(..., param, ...)`, to the element of `param`."""
+        if isinstance(tg, ast.Name) and tg.id == nm and isinstance(it, ast.Name) and it.id == param:
+            return True
+        if isinstance(it, ast.Call) and isinstance(it.func, ast.Name) and it.func.id == "zip" and isinstance(tg, (ast.Tuple, ast.List)) and len(tg.elts) == len(it.args):
+            return any(isinstance(t, ast.Name) and t.id == nm and isinstance(a, ast.Name) and a.id == param for t, a in zip(tg.elts, it.args))
+        return False
     for loop in ast.walk(fn):
         if not isinstance(loop, ast.For) or not any(n is stmt for n in ast.walk(loop)):
             continue
         it, tg = loop.iter, loop.target
+        # for a, b in pending:  with  pending = [(a2, b2) for a2, b2, f in zip(results, param, flags) if f]  (assigned once)
+        if isinstance(it, ast.Name) and isinstance(tg, (ast.Tuple, ast.List)):
+            defs = [a_.value for a_ in ast.walk(fn) if isinstance(a_, ast.Assign) and len(a_.targets) == 1 and isinstance(a_.targets[0], ast.Name) and a_.targets[0].id == it.id]
+            if len(defs) == 1 and isinstance(defs[0], (ast.ListComp, ast.GeneratorExp)) and len(defs[0].generators) == 1 and isinstance(defs[0].elt, ast.Tuple) \
+                    and len(defs[0].elt.elts) == len(tg.elts):
+                for t, e in zip(tg.elts, defs[0].elt.elts):
+                    if isinstance(t, ast.Name) and t.id == name and isinstance(e, ast.Name) and zip_position(defs[0].generators[0].target, defs[0].generators[0].iter, e.id):
+                        rebound = [n for n in ast.walk(loop) if isinstance(n, ast.Assign) and any(isinstance(x, ast.Name) and x.id == name for x in n.targets)]
+                        return not rebound
         if isinstance(tg, ast.Name) and tg.id == name and isinstance(it, ast.Name) and it.id == param:
             return True
         if isinstance(it, ast.Call) and isinstance(it.func, ast.Name) and it.func.id == "zip" and isinstance(tg, (ast.Tuple, ast.List)) \
